@@ -68,6 +68,10 @@ Fixpoint fe_err (u eta : Q) (B : nat -> Q) (e : fexpr) : Q :=
 (** binary64: unit roundoff 2^-53, half the smallest subnormal 2^-1075. *)
 Definition u64 : Q := 1 # (2 ^ 53)%positive.
 Definition eta64 : Q := 1 # (2 ^ 1075)%positive.
+(** The same hypothesis holds a fortiori with any larger absolute term.  The instance test uses 2^-128 (3e-39, still
+    invisible at the scale of the bounds): the rationals of the analysis are not reduced, and with 2^-1075 in every step
+    their denominators reach tens of thousands of bits (seconds per tree in the kernel's VM instead of milliseconds). *)
+Definition eta64w : Q := 1 # (2 ^ 128)%positive.
 
 (** Variable numbering of the generated trees: 0..8 the slots _aa.._cc of self, 9..17 the slots of other, 18..20 the
     vector.  Bound: every matrix entry at most [bm] in absolute value, every vector component at most [bv]. *)
@@ -75,7 +79,7 @@ Definition bounds (bm bv : Q) (n : nat) : Q := if Nat.ltb n 18 then bm else bv.
 
 (** The instance test: the error of every tree of the list is at most [tol]. *)
 Definition errs_within (bm bv tol : Q) (es : list fexpr) : bool :=
-  forallb (fun e => Qle_bool (fe_err u64 eta64 (bounds bm bv) e) tol) es.
+  forallb (fun e => Qle_bool (fe_err u64 eta64w (bounds bm bv) e) tol) es.
 (** Number of rounded operations (for the report; a tree without any is not a float computation). *)
 Fixpoint fe_ops (e : fexpr) : nat :=
   match e with
